@@ -309,43 +309,43 @@ def tla_set(items):
     return TLA("{" + ", ".join(tla_value(i) for i in items) + "}")
 
 
+def _cfg(lab, fam, shapes, ops, ktuples, forms, allch=True, zero=False, bad="{}"):
+    from ..tlc import tla_value
+    st = lambda items: "{" + ", ".join(tla_value(i) for i in items) + "}"
+    return ('[lab |-> "%s", fam |-> "%s", shapes |-> %s, bad |-> %s, ops |-> %s, ktuples |-> %s, forms |-> %s, '
+            'allch |-> %s, zero |-> %s]' % (lab, fam, shapes, bad, st(ops), st(ktuples), st(forms),
+                                            "TRUE" if allch else "FALSE", "TRUE" if zero else "FALSE"))
+
+
 def families(ctx):
-    """(label, constants, quick cap) - the enumerations TLC performs."""
+    """The sub-spaces TLC enumerates: (TLA text of Configs, {label: quick cap})."""
     q = ctx.quick
     allk2 = [[a, b] for a in K5 for b in K5]
-    fams = []
-    # 1. alignment: every broadcastable pair of shapes x all chunkings of both operands
-    fams.append(("bcast", {"Fam": "binary", "Shapes": TLA(ALLSH), "BadTuples": TLA("{<<<<2>>, <<3>>>>, <<<<2, 3>>, <<2>>>>, <<<<0>>, <<2>>>>}"),
-                           "Ops": tla_set(["add"] if q else ["add", "sub", "lt"]), "KTuples": tla_set([["i", "i"]]),
-                           "Forms": tla_set([["d", "d"], ["d", "n"], ["n", "d"]]), "ZeroCh": not q}, 9000))
-    # 2. dtype kinds x operations x operand forms
-    fams.append(("kinds", {"Fam": "binary", "Shapes": TLA("{<<>>, <<3>>, <<2, 1>>, <<1, 3>>}"), "BadTuples": TLA("{}"),
-                           "Ops": tla_set(BINOPS), "KTuples": tla_set(allk2),
-                           "Forms": tla_set([["d", "d"], ["d", "n"], ["n", "d"], ["d", "s"], ["s", "d"]]), "ZeroCh": False}, 7000))
-    fams.append(("unary", {"Fam": "unary", "Shapes": TLA(ALLSH), "BadTuples": TLA("{}"), "Ops": tla_set(UNOPS),
-                           "KTuples": tla_set([[k] for k in K5]), "Forms": tla_set([["d"]]), "ZeroCh": True}, 2000))
-    fams.append(("astype", {"Fam": "astype", "Shapes": TLA("{<<>>, <<0>>, <<3>>, <<2, 3>>}"), "BadTuples": TLA("{}"),
-                            "Ops": tla_set(K5), "KTuples": tla_set([[k] for k in K5]), "Forms": tla_set([["d"]]),
-                            "ZeroCh": True}, 1000))
-    wsh = "{<<>>, <<1>>, <<3>>, <<2, 1>>, <<2, 3>>, <<0>>}" if not q else "{<<>>, <<3>>, <<2, 1>>, <<2, 3>>}"
-    fams.append(("where", {"Fam": "where", "Shapes": TLA(wsh), "BadTuples": TLA("{<<<<2>>, <<3>>, <<3>>>>}"), "Ops": tla_set(["where"]),
-                           "KTuples": tla_set([["b", "i", "i"], ["b", "u", "f"], ["i", "b", "i"], ["b", "i", "c"], ["b", "f", "i"]]),
-                           "Forms": tla_set([["d", "d", "d"], ["d", "n", "d"], ["n", "d", "n"], ["d", "d", "s"], ["d", "s", "d"],
-                                             ["s", "d", "d"], ["s", "d", "n"], ["d", "s", "s"], ["n", "s", "d"]]),
-                           "ZeroCh": False}, 6000))
-    fams.append(("clip", {"Fam": "clip", "Shapes": TLA("{<<>>, <<3>>, <<2, 1>>, <<2, 3>>}"), "BadTuples": TLA("{}"), "Ops": tla_set(["clip"]),
-                          "KTuples": tla_set([["i", "i", "i"], ["u", "i", "i"], ["f", "i", "i"], ["i", "f", "i"], ["u", "u", "i"], ["i", "i", "f"]]),
-                          "Forms": tla_set([["d", "s", "s"], ["d", "-", "s"], ["d", "s", "-"], ["d", "d", "s"], ["d", "n", "d"],
-                                            ["d", "d", "d"], ["n", "d", "s"], ["d", "-", "-"]]),
-                          "ZeroCh": False}, 4000))
-    fams.append(("outwhere", {"Fam": "outwhere", "Shapes": TLA("{<<>>, <<3>>, <<2, 1>>, <<2, 3>>}" if not q else "{<<3>>, <<2, 1>>, <<2, 3>>}"),
-                              "BadTuples": TLA("{}"), "Ops": tla_set(["add", "lt"]),
-                              "KTuples": tla_set([["i", "i", "i", "b"], ["i", "i", "f", "b"], ["f", "i", "i", "b"], ["u", "i", "i", "i"],
-                                                  ["i", "u", "u", "b"]]),
-                              "Forms": tla_set([["d", "d", "d", "-"], ["d", "d", "-", "d"], ["d", "d", "d", "d"], ["d", "n", "d", "n"],
-                                                ["d", "d", "d", "s"], ["d", "s", "d", "d"], ["n", "d", "-", "n"], ["d", "d", "-", "s"]]),
-                              "ZeroCh": False}, 6000))
-    return fams
+    f = lambda *names: [list(n) for n in names]
+    small = "{<<>>, <<3>>, <<2, 1>>, <<2, 3>>}"
+    cfgs = [
+        # alignment: every broadcastable pair of shapes x ALL chunkings of both operands
+        _cfg("bcast", "binary", ALLSH, ["add"] if q else ["add", "sub", "lt"], [["i", "i"]], f("dd", "dn", "nd"),
+             zero=not q, bad="{<<<<2>>, <<3>>>>, <<<<2, 3>>, <<2>>>>, <<<<0>>, <<2>>>>}"),
+        # dtype kinds x operations x operand forms (dtype inference does not look at chunks)
+        _cfg("kinds", "binary", "{<<>>, <<2>>}" if q else "{<<>>, <<3>>, <<2, 1>>}", BINOPS, allk2, f("dd", "dn", "nd", "ds", "sd"),
+             allch=False),
+        _cfg("unary", "unary", ALLSH, UNOPS, [[k] for k in K5], f("d"), zero=not q),
+        _cfg("astype", "astype", "{<<>>, <<0>>, <<3>>, <<2, 3>>}", K5, [[k] for k in K5], f("d"), zero=not q),
+        _cfg("where", "where", small if q else "{<<>>, <<1>>, <<3>>, <<2, 1>>, <<2, 3>>, <<0>>}", ["where"],
+             [["b", "i", "i"], ["b", "u", "f"], ["i", "b", "i"]] + ([] if q else [["b", "i", "c"], ["b", "f", "i"]]),
+             f("ddd", "dnd", "dds", "sdd", "dss") + ([] if q else f("ndn", "dsd", "sdn", "nsd")),
+             bad="{<<<<2>>, <<3>>, <<3>>>>}"),
+        _cfg("clip", "clip", small, ["clip"],
+             [["i", "i", "i"], ["u", "i", "i"], ["i", "f", "i"]] + ([] if q else [["f", "i", "i"], ["u", "u", "i"], ["i", "i", "f"]]),
+             f("dss", "d-s", "ds-", "dds", "dnd") + ([] if q else f("ddd", "nds", "d--"))),
+        _cfg("outwhere", "outwhere", "{<<3>>, <<2, 1>>, <<2, 3>>}" if q else small, ["add"] if q else ["add", "lt"],
+             [["i", "i", "i", "b"], ["i", "i", "f", "b"], ["f", "i", "i", "b"]] + ([] if q else [["u", "i", "i", "i"], ["i", "u", "u", "b"]]),
+             f("ddd-", "dd-d", "dddd", "dndn", "ddds") + ([] if q else f("dsdd", "nd-n", "dd-s")),
+             allch=q),
+    ]
+    caps = {"bcast": 6000, "kinds": 7000, "unary": 2000, "astype": 800, "where": 5000, "clip": 4000, "outwhere": 5000}
+    return TLA("{" + ",\n ".join(cfgs) + "}"), caps
 
 
 INVS = ["CellCount", "ShapeIsBroadcast", "Commutes", "Attribution", "Selects", "Ranges"]
